@@ -520,3 +520,20 @@ Lemma epoch_release_run h i : e_grace s = 1 -> aget h (e_subs s) = Some i ->
   slot_free (next s (Release h)) i = true /\ (forall h', aget h' (e_subs (next s (Release h))) <> Some i).
 Proof. apply epoch_release_frees, erun_inv. Qed.
 End Run.
+
+(* the address of a slot is base + slot for every pool geometry ParseCIDR can produce *)
+From Verif Require Import Proofs.GeometryProofs.
+Lemma epoch_unit_is_addition base ppl pl grace ops i :
+  ppl <= pl -> pl <= 32 -> base < 4294967296 -> base mod 2 ^ (32 - ppl) = 0 ->
+  i < e_total (erun base ppl pl grace ops) ->
+  eunit (erun base ppl pl grace ops) i = base + i /\ base + i < base + 2 ^ (32 - ppl).
+Proof.
+  intros H1 H2 Hb Hal Hi. unfold erun in *. destruct (fold_cfg ops (einit base ppl pl grace)) as (Ht & _ & Hbase).
+  rewrite Ht in Hi. unfold eunit. rewrite Hbase. cbn [einit e_total e_base] in *.
+  assert (Htot : wrap64 (N.shiftl 1 (pl - ppl)) = 2 ^ (pl - ppl)).
+  { rewrite N.shiftl_1_l, wrap64_mod. apply N.mod_small. unfold W64. change 18446744073709551616 with (2 ^ 64).
+    apply N.pow_lt_mono_r; lia. }
+  rewrite Htot in Hi.
+  assert (Hle : 2 ^ (pl - ppl) <= 2 ^ (32 - ppl)) by (apply N.pow_le_mono_r; lia).
+  split; [|lia]. apply (nocarry_is_addition base i (32 - ppl)); try assumption; lia.
+Qed.
